@@ -62,7 +62,7 @@ mod libc {
 extern crate miniz_oxide;
 
 use std::panic::{catch_unwind, AssertUnwindSafe};
-use std::{cmp, ptr};
+use std::ptr;
 
 use libc::{c_int, c_uint, c_ulong};
 
@@ -254,10 +254,9 @@ unmangle!(
     }
 
     pub extern "C" fn mz_deflateBound(_stream: *mut mz_stream, source_len: c_ulong) -> c_ulong {
-        cmp::max(
-            128 + (source_len * 110) / 100,
-            128 + source_len + ((source_len / (31 * 1024)) + 1) * 5,
-        )
+        // A fixed Huffman block spends up to 9 bits on every input byte, and a block that has
+        // outgrown the window can no longer fall back to a stored block.
+        128 + source_len + source_len / 8 + ((source_len / (31 * 1024)) + 1) * 5
     }
 
     pub unsafe extern "C" fn mz_inflateInit(stream: *mut mz_stream) -> c_int {
